@@ -29,7 +29,10 @@ def alias_arg(alias):
     return "-" if alias is None else hexs(alias)[1:-1]
 
 HOSTILE = ["'", "''", "x' OR 1=1 --", "--", "/*", "*/", ";", "\\", "\\'", "\x00", "’", "＇", "%", "_", "a%b_c\\d",
-           "'; DROP TABLE t; --", "\"", "x\"y", "\n", "é", "", "a", "%'", "_' OR '1'='1", "\\%", "''''"]
+           "'; DROP TABLE t; --", "\"", "x\"y", "\n", "é", "", "a", "%'", "_' OR '1'='1", "\\%", "''''",
+           # contents that BEGIN like a literal of another kind (a translator that re-types or pattern-matches string contents must not let the rest out)
+           "2020-01-01' OR 1=1 --", "2020-01-01", "12:00:00' --", "2020-01-01T10:00:00Z' OR '1'='1", "01234567-89ab-cdef-0123-456789abcdef' --",
+           "P1D' OR 1=1 --", "1' OR '1'='1", "1.5e3'--", "true' OR 1=1 --", "null' --", "-1) OR (1=1"]
 
 I = gens_typed.I
 call = gens_typed.call
@@ -60,6 +63,13 @@ def string_positions(s):
         ast.Compare(ast.Eq(), I("s1"), ast.Null()) if False else ast.Compare(ast.Eq(), call("length", call("concat", L, I("s1"))), ast.Integer("1")),
         call("hassubset", I("c1"), ast.List([L, S("b")])), call("hassubset", ast.List([L]), I("c1")),
         ast.Compare(ast.Eq(), call("length", ast.List([L, L])), ast.Integer("2")),
+        # opposite an operand of ANOTHER kind (accepted by the parser; a backend may refuse, or coerce — the content must stay inside one literal)
+        ast.Compare(ast.Eq(), call("date", I("dt1")), L), ast.Compare(ast.GtE(), L, call("date", I("dt1"))), ast.Compare(ast.Eq(), I("d1"), L),
+        ast.Compare(ast.In(), call("date", I("dt1")), ast.List([L, S("x")])), ast.Compare(ast.In(), I("d1"), ast.List([ast.Date("2020-01-01"), L])),
+        ast.Compare(ast.Eq(), call("year", I("d1")), L), ast.Compare(ast.Gt(), I("dt1"), L), ast.Compare(ast.Eq(), call("time", I("dt1")), L),
+        ast.Compare(ast.Eq(), I("i1"), L), ast.Compare(ast.Lt(), I("f1"), L), ast.Compare(ast.Eq(), I("b1"), L), ast.Compare(ast.Eq(), I("g1"), L),
+        ast.Compare(ast.Eq(), ast.BinOp(ast.Add(), L, ast.Integer("1")), I("i1")), ast.Compare(ast.Gt(), call("now"), L),
+        ast.Compare(ast.Eq(), ast.Date("2020-01-01"), L), ast.Compare(ast.Eq(), ast.Duration("P1D"), L), ast.Compare(ast.NotEq(), ast.Null(), L),
     ]
     return out
 
